@@ -1,18 +1,27 @@
 #!/usr/bin/env python3
-"""mkprompts.py <suffix>: writes /tmp/props/prompt-CXX<suffix>.txt for every property from prompt-CXXc.txt, with the
-NOTE line listing all seeds stored so far under /verif/seeded (short names only; nothing else from /verif is revealed)."""
-import os, re, sys
+"""mkprompts.py <suffix> [ids...]: writes /tmp/props/prompt-CXX<suffix>.txt for the given (default: all) properties from
+tools/seed_prompt_template.txt and properties.jsonl (title, statement, quantifier text only), with a NOTE listing the short
+names of the seeds stored so far for that property (nothing else from /verif is revealed)."""
+import json, os, re, sys
 suffix = sys.argv[1]
+want = sys.argv[2:]
+os.makedirs('/tmp/props', exist_ok=True)
 seeds = {}
 for d in sorted(os.listdir('/verif/seeded')):
     m = re.match(r'^(C\d\d)[a-z]?-(.*)$', d)
     if m:
         seeds.setdefault(m.group(1), []).append(m.group(2).replace('-', ' '))
-for i in range(1, 21):
-    pid = 'C%02d' % i
-    src = open('/tmp/props/prompt-%sc.txt' % pid).read()
-    note = 'NOTE: previous seeds already exist for this property (short names): ' + '; '.join(seeds.get(pid, [])) + '.'
-    out = re.sub(r'NOTE: previous seeds already exist for this property \(short names\): [^\n]*?\. You MUST', note + ' You MUST', src)
-    assert out != src or True
+tmpl = open('/verif/tools/seed_prompt_template.txt').read()
+for line in open('/verif/properties.jsonl'):
+    p = json.loads(line)
+    pid = p['id']
+    if want and pid not in want:
+        continue
+    text = '  ' + p['title'] + '\n\n  ' + p['statement'] + '\n\n  (It is meant to hold for: ' + p['quantifier']['text'] + ')'
+    note = ('\n\nNOTE: previous seeds already exist for this property (short names): ' + '; '.join(seeds.get(pid, [])) +
+            '. You MUST pick a different idea, in a different function or mechanism where possible; look for the less obvious places '
+            'the property depends on (helpers, error paths, configuration corners, the client or the server side, goroutines, buffering layers).')
+    d = '/tmp/seed-%s%s' % (pid, suffix)
+    out = tmpl.replace('__PROPERTY__', text + note).replace('__DIR__', d)
     open('/tmp/props/prompt-%s%s.txt' % (pid, suffix), 'w').write(out)
 print('ok')
